@@ -96,6 +96,7 @@ pub struct Knobs {
     pub extra_clone_p: u32,
     /// prefer consuming calls on objects that take part in adoptions
     pub consuming_on_adopted: bool,
+    pub drain_consuming: bool,
     /// out of 8: a destructor downgrades each of its stored handles and the program keeps the Weak
     pub dtor_downgrade_p: u32,
 }
@@ -446,11 +447,24 @@ pub fn next_op(rng: &mut Rng, kn: &Knobs, g: &mut GenState) -> Option<Op> {
 
 /// Next call of the drain phase: release everything the program holds, in random
 /// order, leaving `keep` strong handles for last... and then those too.
-pub fn next_drain(rng: &mut Rng) -> Option<Op> {
+pub fn next_drain(rng: &mut Rng, kn: &Knobs, g: &mut GenState) -> Option<Op> {
     let v = view();
     let mut cands: Vec<Op> = vec![];
-    for &(h, _) in &v.hs {
-        cands.push(Op::Drop { h });
+    for &(h, o) in &v.hs {
+        // a handle is also given up by the calls that consume or replace it: in some runs
+        // the drain releases through them, so that "the last outside handle of a group"
+        // is released by make_mut / try_unwrap / into_raw+decrement as well as by drop
+        if kn.drain_consuming && rng.chance(1, 3) {
+            let n = m(|m| m.phys(o));
+            match rng.below(3) {
+                0 if n != 1 => cands.push(Op::MakeMut { h, o2: g.o() }),
+                1 if n == 1 => cands.push(Op::TryUnwrap { h, v: g.v() }),
+                2 => cands.push(Op::IntoRaw { h, r: g.r() }),
+                _ => cands.push(Op::Drop { h }),
+            }
+        } else {
+            cands.push(Op::Drop { h });
+        }
     }
     for &r in &v.raws {
         cands.push(Op::DecStrong { r });
